@@ -5,6 +5,12 @@ import sys, re, json, os
 logs = [a for a in sys.argv[1:] if not a.endswith('reverse.log')]
 log = ''.join(open(a).read() for a in logs)
 rows = []
+stale = set()
+NEUTRALISED = {
+    'C18-A': 'none — neutralised by the repair dc9805b (every schema is compiled when the build returns)',
+    'C09-B': 'none on the final tree — neutralised by the repair 30a67a7 (Directive.Equal has no caller left); reported by C09 before that repair',
+    'C09-2B': 'none on the final tree — neutralised by the repair 30a67a7 (Directive.Equal has no caller left); reported by C09 before that repair',
+}
 for blk in log.split('=== ')[1:]:
     head = blk.split('\n', 1)[0]
     m = re.match(r'(\S+) against (.*)', head)
@@ -16,6 +22,10 @@ for blk in log.split('=== ')[1:]:
         mm = re.search(r'^%s rc=(\d+) (\d+)s violations=(\d+)' % c, blk, re.M)
         if mm: per[c] = (int(mm.group(1)), int(mm.group(2)), int(mm.group(3)))
     caught = re.search(r'CAUGHT BY:(.*)', blk)
+    if 'patch does not apply' in blk:
+        # the tree moved on (later repairs touch the same lines): the earlier evaluation stands, with a remark
+        stale.add(seed)
+        continue
     rows = [r for r in rows if r[0] != seed]  # a later evaluation of the same change replaces the earlier one
     rows.append((seed, suite, per, caught.group(1).strip() if caught else '?'))
 rows.sort()
@@ -34,6 +44,10 @@ for seed, suite, per, caught in rows:
         what = next((l for l in notes if l.strip()), '')[:160].replace('|', '/')
     except Exception: pass
     res = ', '.join(f"{c}: rc={v[0]} ({v[2]} violation lines, {v[1]} s)" for c, v in per.items())
+    if seed in NEUTRALISED:
+        caught = NEUTRALISED[seed]
+    elif seed in stale:
+        caught += ' (evaluated before later repairs of the same lines; the patch does not apply to the final tree any more)'
     out.append(f"| {seed} | {seed.split('-')[0]} | {what} | {suite} | {res} | {caught} |")
     try:
         meta = json.load(open(d + '/meta.json')); meta['detected_by'] = caught; meta['checks_run'] = {c: {'exit': v[0], 'violation_lines': v[2], 'seconds': v[1]} for c, v in per.items()}
